@@ -350,11 +350,11 @@ pub fn chunk_hash(chunk: &koto_bytecode::Chunk) -> u64 {
 /// return/break/continue at bracket depth > 0, inside a string template, or in operand position
 /// (preceded on its line by anything but `then`, `else`, a function header or nothing)
 pub fn control_exit_inside_builder(src: &str) -> bool {
-    use koto_lexer::{Lexer, Token};
+    use koto_lexer::Token;
     let mut depth = 0i32;
     let mut in_string = 0i32;
     let mut prev: Option<Token> = None; // previous significant token on this line
-    for t in Lexer::new(src) {
+    for t in crate::textgen::lex_all(src) {
         match t.token {
             Token::Whitespace | Token::CommentSingle | Token::CommentMulti => continue,
             Token::NewLine => {
